@@ -1,36 +1,23 @@
-# Per-property configuration of the driver. A "unit" is one compiled test binary
-# invocation: package, -test.run regexp, the parts (TestVerif_<ID>_<part>) it
-# contains, shard counts and timeouts as (quick, thorough).
-CHECKS = {
-    "C03": {
-        "level": "exploration",
-        "technique": "property-based testing (rapid): codec round trip + decoder totality over generated commands and byte strings",
-        "level_text": "Generated search with an explicit oracle: every generated command list must survive FormatCommand->WriteFrame->ReadFrame->ParseCommand byte for byte, and arbitrary bytes must be decoded or rejected without panic or unbounded allocation. It samples the input space (tens of thousands of cases per run, shrunk counter-examples); it does not prove absence.",
-        "level_note": "Trusted: the Go toolchain, rapid, hash/crc32. The harness file is compiled into pkg/persistence through -overlay, /repo is not modified.",
-        "assumptions": ["argument values do not themselves contain a complete well-formed frame (stated in the property)",
-                        "inputs that declare a bulk/frame length >= 16 MiB are skipped in the random decoders part (legal under the 1 GiB cap)"],
-        "units": [
-            {"pkg": "./pkg/persistence/", "run": "^TestVerif_C03_", "parts": ["codec", "decoders"],
-             "shards": (1, 8), "timeout": (600, 3000)},
-        ],
-    },
-    "C04": {
-        "level": "exploration",
-        "technique": "model-based stateful property testing (rapid): generated op histories against a reference map-of-records model, full read-out after every op",
-        "level_text": "Stateful model-based exploration: thousands of generated histories (adds, batches, imports, deletes, re-adds, metadata merges, reinforce, evolve, links, maintenance, compress, snapshot, rewrite, restart) are executed against the real engine and a reference model, and the complete observable state is compared after every operation. Failures shrink to minimal histories saved as JSON replays. Sampling, not proof.",
-        "level_note": "Trusted: the reference model in harness/internal/verifcheck (written from the property statement), rapid, the engine's read API used as the observation function. int8 values after a restart are adopted, not asserted (known finding int8-restart).",
-        "assumptions": ["single client goroutine; background timers disabled by configuration (auto-save, auto-rewrite, maintenance interval)",
-                        "wall-clock values (_created_at, edge timestamps) are bracketed around the call and then adopted, never predicted"],
-        "units": [
-            {"pkg": "./internal/verifcheck/", "run": "^TestVerif_C04_", "parts": ["model"], "shards": (4, 14), "timeout": (900, 3400)},
-        ],
-    },
-}
+# Loads the per-property driver configuration from /verif/checks.d/<ID>.json.
+# A "unit" is one compiled test binary invocation: package, -test.run regexp, the parts
+# (TestVerif_<ID>_<part>) it contains, shard counts and timeouts as [quick, thorough].
+import glob, json, os
 
+_D = os.path.join(os.path.dirname(os.path.dirname(os.path.abspath(__file__))), "checks.d")
+CHECKS = {}
+for _f in sorted(glob.glob(os.path.join(_D, "C*.json"))):
+    CHECKS[os.path.basename(_f)[:-5]] = json.load(open(_f))
+
+_ALL = ["C%02d" % i for i in range(1, 21)]
+_NA_REASONS = {}
+_na_file = os.path.join(_D, "not_applicable.json")
+if os.path.exists(_na_file):
+    _NA_REASONS = json.load(open(_na_file))
 NOT_APPLICABLE = [
-    {"property_id": p, "reason": "check not built yet in this session (planned, see DESIGN.md section 9)"}
-    for p in ["C01", "C02", "C05", "C06", "C07", "C08", "C09", "C10", "C11", "C12", "C13", "C14", "C15", "C16", "C17", "C18", "C19", "C20"]
-    if p not in CHECKS
+    {"property_id": p, "reason": _NA_REASONS.get(p, "check not built yet (planned, see DESIGN.md section 9)")}
+    for p in _ALL if p not in CHECKS
 ]
-
 HOOK_COMMITS = []
+_hf = os.path.join(_D, "hook_commits.json")
+if os.path.exists(_hf):
+    HOOK_COMMITS = json.load(open(_hf))
